@@ -51,9 +51,35 @@ def _codec(ctx: Ctx, name: str, src_var_kind: str) -> None:
         else:
             ctx.check(unparse(hi) == maxattr, f"Table.{name}:bound-form", f"bound `{unparse(hi)}`")
     i = unparse(f.target)
+    if name == "to_bytes":
+        # the [0xNN] escape, decided before (and independently of) the shape of the table lookup
+        m = [s for s in lp.body if isinstance(s, ast.Assign) and unparse(s.value) == "self.joker_regex.match(remainder)"]
+        esc = [s for s in lp.body if isinstance(s, ast.If) and m and unparse(s.test) == unparse(m[0].targets[0])]
+        ok = bool(m) and len(esc) == 1 and lp.body.index(esc[0]) < lp.body.index(f)
+        if ok:
+            e = esc[0]
+            mv = unparse(m[0].targets[0])
+            txt = [unparse(s) for s in e.body]
+            emit_forms = (f"binary_text += bytes([int({mv}.group('byte'), 16)])", f"binary_text.extend(bytes([int({mv}.group('byte'), 16)]))", f"binary_text.append(int({mv}.group('byte'), 16))")
+            adv_forms = (f"current_position += len({mv}.group())", f"current_position += {mv}.end() - {mv}.start()", f"current_position += len({mv}.group(0))",
+                         f"current_position += {mv}.end()", f"current_position += {mv}.end(0)")  # the pattern is anchored: the match starts at 0
+            ok = len(txt) == 3 and txt[0] in emit_forms and txt[1] in adv_forms and txt[2] == "continue"
+        ctx.check(bool(ok), "Table.to_bytes:escape", "[0xNN] is recognised before table entries, emits the byte NN (base 16) and skips the whole escape")
     tries = [n for n in f.body if isinstance(n, ast.Try)]
     ok_hit = False
-    if len(tries) == 1:
+    member = [n for n in f.body if isinstance(n, ast.If) and not n.orelse and isinstance(n.test, ast.Compare) and len(n.test.ops) == 1 and isinstance(n.test.ops[0], ast.In)
+              and unparse(n.test.comparators[0]) == table]
+    if not tries and len(member) == 1:
+        # `if candidate in table: append table[candidate]; advance; break` - the lookup without the exception
+        mb = member[0]
+        key_src = unparse(mb.test.left)
+        defs = [s for s in f.body if isinstance(s, ast.Assign) and unparse(s.targets[0]) == key_src]
+        ctx.check(bool(defs) and unparse(defs[0].value) == f"remainder[:{i}]", f"Table.{name}:candidate", f"looks up the prefix of length {i} of what remains")
+        adv = [s for s in mb.body if isinstance(s, ast.AugAssign) and unparse(s.target) == "current_position" and unparse(s.value) == i]
+        ctx.check(bool(adv) and isinstance(mb.body[-1], ast.Break), f"Table.{name}:hit", "a hit advances by the matched length and stops trying shorter candidates")
+        ctx.ok(f"Table.{name}:miss", "a miss tries the next shorter candidate (no arm for it)")
+        tries = [mb]  # type: ignore[list-item]
+    elif len(tries) == 1:
         t = tries[0]
         body_txt = [unparse(s) for s in t.body]
         looked = [s for s in t.body if isinstance(s, ast.Assign) and unparse(s.value).startswith(table + "[")]
@@ -79,22 +105,9 @@ def _codec(ctx: Ctx, name: str, src_var_kind: str) -> None:
         ctx.check(len(els) == 1, "Table.to_bytes:unknown-skipped", f"an unknown character emits nothing; else-arm is {[unparse(s) for s in els]}")
         hits = [unparse(s.value) for s in ast.walk(tries[0]) if isinstance(s, ast.AugAssign) and unparse(s.target) == "binary_text"] + \
                [unparse(c.args[0]) for c in calls_in(tries[0]) if call_name(c) == "binary_text.extend" and c.args]
-        ctx.check(hits == ["decoded"], "Table.to_bytes:appends-code", f"the matched entry's bytes are appended once; found {hits}")
+        ctx.check(hits == ["decoded"] or (member and hits == [f"{table}[{unparse(member[0].test.left)}]"]), "Table.to_bytes:appends-code", f"the matched entry's bytes are appended once; found {hits}")
         r = returns_of(fn.node)
         ctx.check(len(r) == 1 and unparse(r[0].value) == "bytes(binary_text)", "Table.to_bytes:result", "the concatenation, as bytes")
-        # escape first
-        first = lp.body[0:3]
-        m = [s for s in lp.body if isinstance(s, ast.Assign) and unparse(s.value) == "self.joker_regex.match(remainder)"]
-        esc = [s for s in lp.body if isinstance(s, ast.If) and m and unparse(s.test) == unparse(m[0].targets[0])]
-        ok = bool(m) and len(esc) == 1 and lp.body.index(esc[0]) < lp.body.index(f)
-        if ok:
-            e = esc[0]
-            mv = unparse(m[0].targets[0])
-            txt = [unparse(s) for s in e.body]
-            emit_forms = (f"binary_text += bytes([int({mv}.group('byte'), 16)])", f"binary_text.extend(bytes([int({mv}.group('byte'), 16)]))", f"binary_text.append(int({mv}.group('byte'), 16))")
-            adv_forms = (f"current_position += len({mv}.group())", f"current_position += {mv}.end() - {mv}.start()", f"current_position += len({mv}.group(0))")
-            ok = len(txt) == 3 and txt[0] in emit_forms and txt[1] in adv_forms and txt[2] == "continue"
-        ctx.check(bool(ok), "Table.to_bytes:escape", "[0xNN] is recognised before table entries, emits the byte NN (base 16) and skips the whole escape")
         rem = [s for s in lp.body if isinstance(s, ast.Assign) and unparse(s.targets[0]) == "remainder"]
         ctx.check(len(rem) == 1 and unparse(rem[0].value) == f"{fn.params()[1]}[current_position:]", "Table.to_bytes:remainder", "matching continues from the cursor")
 
